@@ -299,6 +299,8 @@ def rule_unscaling_once(eng, rep, rule="C11-4.jacobian-is-un-scaled-exactly-once
         rep.bad(rule, site, "solver.solve|unscaling-sites-%d" % len(cands), "expected exactly one statement that rescales the returned Jacobian, found %d: with internal scaling the columns are %s" % (len(cands), "left in scaled coordinates" if not cands else "rescaled more than once"))
         return
     n, st, t, op, rhs = cands[0]
+    from .common import expand_unpacked
+    rhs = expand_unpacked(cfg, st, rhs)       # `_, col_scale = scaling_changes ... / col_scale[i]`  ==  `/ scaling_changes[1][i]`
     s2 = eng.where(solve, st)
     problems = []
     if not isinstance(op, ast.Div):
